@@ -38,6 +38,21 @@ def check(run):
             run.differential("batch-pm-defect-region", seqs, classify=classify_pm)
         else:
             run.differential(f"batch-{backend}", seqs)
+    # ---- batches on a persistent tree that was closed and opened again: leaves written in an earlier session are removed / replaced by
+    #      every batch arm (removal lists are contiguous pairs, on which the open batch finding has no effect). Anything the adapter
+    #      keeps only in memory (the occupancy flags: open finding C15-pm-reopen-flags) must not decide whether a batch is carried out.
+    ro = []
+    for k in range(6 if quick else 60):
+        depth = rng.choice([3, 4, 5])
+        cap = 1 << depth
+        fill = rng.randint(cap // 2, cap)
+        a = rng.randrange(0, fill - 1)
+        seq = [f"tree new pmdisk {depth}", "range 0x0 " + treegen.vlist([rng.randint(1, 1 << 30) for _ in range(fill)]), "close", f"reopen {depth}", "root", "next"]
+        seq += [rng.choice([f"batch 0x0 - {hex(a)},{hex(a + 1)}", f"batch 0x0 - {hex(a)}", f"batch {hex(a)} {hex(rng.randint(1, 99))} -", f"batch 0x0 - {hex(a + 1)},{hex(a)}"]),
+                "root", "next"] + [f"get {hex(i)}" for i in range(fill)]
+        seq += ["close", f"reopen {depth}", f"batch 0x0 - {hex(fill - 2)},{hex(fill - 1)}", "root"] + [f"get {hex(i)}" for i in (fill - 2, fill - 1, 0)]
+        ro.append(seq)
+    run.differential("batch-after-reopen", ro, shrink=False)
     # ---- the RLN API glue: set_leaves_from / init_tree_with_leaves / atomic_operation (u8 index list) on the default backend
     def rln_shape(line):
         w = line.split(" ")
@@ -74,6 +89,8 @@ def check(run):
                 seq += [rng.choice([f"rln io r set_leaves_from {hex(start)} {v2}", f"rln io r atomic {hex(start)} {v2} 0x1", f"rln io r1 atomic {hex(start)} {v2} -",
                                     f"rln io r init_leaves {v2}", f"rln io r set_leaf 0x1 {hex(treegen.val(rng))}", "rln io w empty", "rln io w root"]),
                         "rln root", "rln leaves_set", "rln empty", "rln get_leaf 0x1"]
+        if k % 4 == 0:
+            seq = seq[:1] + [f"rln chunk {hex(rng.choice([1, 5, 33]))}"] + seq[1:] + ["rln chunk 0x0"]     # the whole history through readers that deliver a few bytes per read()
         rs.append(seq)
     run.differential("rln-batch-api-clean", [[l for l in s2 if not rln_shape(l)] for s2 in rs])
     run.differential("rln-batch-api-defect-region", rs, classify=classify_rln)
